@@ -490,6 +490,25 @@ func run(r *mon.Run) {
 			for name := range rb.Exchanges[ei].Response.Header {
 				name := name
 				mutEx("header-value="+name, func(e *bundle.Exchange) { e.Response.Header[name] = []string{e.Response.Header[name][0] + "x"} })
+				// respellings an HTTP library would call insignificant: the signature covers the bytes of the value
+				for wsName, ws := range map[string][2]string{"trailing-space": {"", " "}, "leading-space": {" ", ""}, "leading-tab": {"\t", ""}, "trailing-tab": {"", "\t"}} {
+					ws := ws
+					mutEx("header-value-"+wsName+"="+name, func(e *bundle.Exchange) {
+						v := append([]string{}, e.Response.Header[name]...)
+						v[len(v)-1] = ws[0] + v[len(v)-1] + ws[1]
+						e.Response.Header[name] = v
+					})
+				}
+				mutEx("header-value-case="+name, func(e *bundle.Exchange) {
+					v := append([]string{}, e.Response.Header[name]...)
+					if up := strings.ToUpper(v[0]); up != v[0] {
+						v[0] = up
+					} else {
+						v[0] = strings.ToLower(v[0]) + "z"
+					}
+					e.Response.Header[name] = v
+				})
+				mutEx("header-value-appended="+name, func(e *bundle.Exchange) { e.Response.Header[name] = append(append([]string{}, e.Response.Header[name]...), "extra") })
 				mutEx("header-removed="+name, func(e *bundle.Exchange) { delete(e.Response.Header, name) })
 				mutEx("header-renamed="+name, func(e *bundle.Exchange) {
 					e.Response.Header[name+"-2"] = e.Response.Header[name]
